@@ -56,9 +56,12 @@ type pureCase struct {
 }
 
 type mismatch struct {
-	Line  string `json:"line"`
-	Impl  string `json:"impl"`
-	Model string `json:"model"`
+	Line  string    `json:"line"`
+	Impl  string    `json:"impl"`
+	Model string    `json:"model"`
+	Prop  string    `json:"property,omitempty"`
+	Key   string    `json:"key,omitempty"`
+	Trace []stepRec `json:"trace,omitempty"`
 }
 
 type suiteResult struct {
@@ -121,13 +124,13 @@ func runAgainstDriver(driver string, suite string, rule string, exhaustive bool,
 			if lines[i] != c.impl {
 				res.MismatchCount++
 				if len(res.Mismatches) < 20 {
-					res.Mismatches = append(res.Mismatches, mismatch{c.line, c.impl, lines[i]})
+					res.Mismatches = append(res.Mismatches, mismatch{Line: c.line, Impl: c.impl, Model: lines[i]})
 				}
 			}
 			if c.specErr != "" {
 				res.SpecViolationCount++
 				if len(res.SpecViolations) < 20 {
-					res.SpecViolations = append(res.SpecViolations, mismatch{c.line, c.impl, c.specErr})
+					res.SpecViolations = append(res.SpecViolations, mismatch{Line: c.line, Impl: c.impl, Model: c.specErr})
 				}
 			}
 		}
